@@ -35,6 +35,8 @@ struct ghost {
     unsigned hostnames;       /* 'N' lines */
     unsigned ips;             /* 'I' lines */
     unsigned broadcasts;      /* messages with req == NULL other than X queries ('>', 'G', 'A', 'S', ...) */
+    unsigned long bnum[6];    /* numeric arguments of the last broadcast message */
+    const char *bfmt;         /* its format string */
     char last_kind;
 
     /* extension queries ('X' lines built by iauth_x_query) */
@@ -65,6 +67,7 @@ struct ghost {
     /* ghost module callbacks (core handlers) */
     unsigned cb_field_change, cb_user_info, cb_password, cb_new_client, cb_disconnect;
     int cb_last_flag;
+    unsigned cb_flags_seen;   /* the request's flags as the module hook saw them */
     const char *cb_password_text;
 };
 
